@@ -220,7 +220,10 @@ def run_one(h, crate, scratch, target_seed, timeout_s, mem_gb, extra_args=None, 
     tdir = os.path.join(scratch, "t_" + name.replace("::", "_"))
     if target_seed and os.path.isdir(target_seed) and not os.path.isdir(tdir):
         subprocess.call(["cp", "-a", target_seed, tdir])
-    cmd = ["cargo", "kani", "-Z", "stubbing", "--harness", name, "--exact", "--target-dir", tdir]
+    # --no-assertion-reach-checks: Kani's per-assertion reachability probes each come back with a full CBMC trace; with the
+    # 32 KiB entry buffers of table.rs that is gigabytes of JSON (probed: 4.3 GB / 10 min vs 48 s). Vacuity is guarded by
+    # kani::cover! witnesses and must-fail twins instead.
+    cmd = ["cargo", "kani", "-Z", "stubbing", "--harness", name, "--exact", "--target-dir", tdir, "--no-assertion-reach-checks"]
     if h.get("unwind_default"):
         cmd += ["--default-unwind", str(h["unwind_default"])]
     if h.get("solver"):
